@@ -27,6 +27,10 @@ func nativeReplay(repo string, lds []*Loaded, path string, v *Violation) (bool, 
 	if v.Kind == "deadlock" || h.Preempt >= 0 && v.Kind != "assert" && v.Kind != "panic" {
 		return false, "skip"
 	}
+	if h.Preempt > 0 {
+		// the counterexample is a schedule with preemptions: the native scheduler cannot be forced onto it
+		return false, "skip"
+	}
 	if (len(h.Cuts) > 0 && !h.ReplayCuts) || len(h.SchedPoints) > 0 || h.SymBytes {
 		// harness relies on engine-side cuts/models: not natively replayable
 		return false, "skip"
